@@ -151,7 +151,9 @@ def normalise(rel, fn, qual):
     if cur_names == ref_names or set(cur_names) == set(ref_names):
         return {}
     pairs = []
-    if len(cur) == len(ref):
+    same_sig = sum(1 for c, r in zip(cur, ref) if c[1] == r[1])
+    if len(cur) == len(ref) and same_sig >= 0.6 * len(cur):
+        # a pure renaming: the binding statements line up one to one
         pairs = list(zip(cur_names, ref_names))
     else:
         sm = difflib.SequenceMatcher(a=[c[1] for c in cur], b=[r[1] for r in ref], autojunk=False)
@@ -217,16 +219,107 @@ class _Subst(ast.NodeTransformer):
         return node
 
 
+def _is_chain(e):
+    """name, attribute chain (self.a.b) or element/view of one by names and constants (self.a[i, j]): an object reference"""
+    while isinstance(e, (ast.Attribute, ast.Subscript)):
+        if isinstance(e, ast.Subscript):
+            idx = e.slice.elts if isinstance(e.slice, ast.Tuple) else [e.slice]
+            if not all(isinstance(i, (ast.Name, ast.Constant)) for i in idx):
+                return False
+        e = e.value
+    return isinstance(e, ast.Name)
+
+
+def propagate_new_aliases(fn, ref_names):
+    """a local the reference tree does not have, bound once to a name / attribute chain that the function never rebinds,
+    is that object under another name: every use is replaced by the chain. -> names replaced"""
+    done = []
+    # a, b = <chain>   ->   a = <chain>[0]; b = <chain>[1]     (new locals only)
+    for k, st in enumerate(list(fn.body)):
+        if isinstance(st, ast.Assign) and len(st.targets) == 1 and isinstance(st.targets[0], ast.Tuple) and _is_chain(st.value) \
+                and not isinstance(st.value, ast.Name) and all(isinstance(e, ast.Name) and e.id not in ref_names for e in st.targets[0].elts):
+            new = []
+            for pos, e in enumerate(st.targets[0].elts):
+                a = ast.Assign(targets=[ast.Name(id=e.id, ctx=ast.Store())],
+                               value=ast.Subscript(value=ast.parse(ast.unparse(st.value), mode="eval").body,
+                                                   slice=ast.Constant(value=pos), ctx=ast.Load()))
+                for x in ast.walk(a):
+                    ast.copy_location(x, st)
+                a._parent = fn
+                new.append(a)
+            i0 = fn.body.index(st)
+            fn.body[i0:i0 + 1] = new
+    stores = {}
+    for n in ast.walk(fn):
+        if isinstance(n, ast.Name) and isinstance(n.ctx, ast.Store):
+            stores.setdefault(n.id, []).append(n)
+    attr_stores = {ast.unparse(n) for n in ast.walk(fn) if isinstance(n, ast.Attribute) and isinstance(n.ctx, ast.Store)}
+    for st in list(ast.walk(fn)):
+        if not (isinstance(st, ast.Assign) and len(st.targets) == 1 and isinstance(st.targets[0], ast.Name) and _is_chain(st.value)):
+            continue
+        nm = st.targets[0].id
+        if nm in ref_names or len(stores.get(nm, [])) != 1 or isinstance(st.value, ast.Name):
+            continue
+        chain = ast.unparse(st.value)
+        root = chain.split(".")[0].split("[")[0]
+        base = st.value
+        prefixes = set()
+        while isinstance(base, (ast.Attribute, ast.Subscript)):
+            prefixes.add(ast.unparse(base))
+            base = base.value
+        prefixes.add(ast.unparse(base))
+        idx_names = {x.id for x in ast.walk(st.value) if isinstance(x, ast.Name)} - {root}
+        if any(len(stores.get(x, [])) > 0 and x not in params_of(fn) or (x in params_of(fn) and stores.get(x)) for x in idx_names):
+            continue
+        if prefixes & attr_stores or (root != "self" and len(stores.get(root, [])) > 0 and root not in params_of(fn)) or \
+                (root in params_of(fn) and stores.get(root)):
+            continue
+        par = getattr(st, "_parent", None)
+        blk = None
+        for f in ("body", "orelse", "finalbody"):
+            b = getattr(par, f, None)
+            if isinstance(b, list) and any(x is st for x in b):
+                blk = b
+        if blk is None or par is not fn:
+            continue            # only aliases made at the top level of the function dominate all their uses
+        uses = [n for n in ast.walk(fn) if isinstance(n, ast.Name) and n.id == nm and isinstance(n.ctx, ast.Load)]
+        if any((u.lineno, u.col_offset) < (st.lineno, st.col_offset) for u in uses):
+            continue
+        _Subst(nm, st.value).visit(fn)
+        blk[:] = [x for x in blk if x is not st]
+        done.append(nm)
+    return done
+
+
+class _SpliceStar(ast.NodeTransformer):
+    """f(*(a, b)) -> f(a, b)"""
+
+    def visit_Call(self, node):
+        self.generic_visit(node)
+        if any(isinstance(a, ast.Starred) and isinstance(a.value, (ast.Tuple, ast.List)) for a in node.args):
+            new = []
+            for a in node.args:
+                if isinstance(a, ast.Starred) and isinstance(a.value, (ast.Tuple, ast.List)):
+                    new.extend(a.value.elts)
+                else:
+                    new.append(a)
+            node.args = new
+        return node
+
+
 def inline_new_temps(rel, fn, qual):
     """-> names inlined"""
     ref = load_table().get(rel, {}).get(qual)
+    if ref is None and qual in reference_functions(rel):
+        ref = []                 # a function of the reference tree that has no locals there
     if ref is None or has_nested_scope(fn):
         return []
     ref_names = {r[0] for r in ref}
+    _SpliceStar().visit(fn)
     cur = bindings(fn)
     if len(cur) <= len(ref_names) and {c[0] for c in cur} <= ref_names:
         return []
-    done = []
+    done = propagate_new_aliases(fn, ref_names)
     changed = True
     while changed:
         changed = False
@@ -538,4 +631,6 @@ def inline_new_helpers(tree, rel):
     for q, fn, cls in known:
         process_expr(fn, cls, q)
         process(fn, cls, q)
+    if done:
+        _SpliceStar().visit(tree)
     return done
